@@ -236,6 +236,18 @@ func (d *csDirector) intent(maxBits, blockNo int) (rig.Tx, bool) {
 	s := d.cur()
 	a := r.Acc(rng.Intn(6))
 	denom := d.denoms[rng.Intn(len(d.denoms))]
+	if d.mode != "none" && len(d.denoms) > 2 {
+		// the last denomination gets its pool late: by then the coinswap module account (which takes and burns the
+		// pool-creation fee) exists and has been sent coins of its own
+		last := d.denoms[len(d.denoms)-1]
+		switch {
+		case blockNo < 40 && denom == last:
+			denom = d.denoms[rng.Intn(len(d.denoms)-1)]
+		case blockNo >= 30 && blockNo < 40 && rng.Intn(6) == 0 && len(s.Pools) > 0:
+			tag := &csTag{Kind: "donate", Note: "to-module-account"}
+			return r.Mk(a, tag, banktypes.NewMsgSend(a.Addr, authtypes.NewModuleAddress(cstypes.ModuleName), sdk.NewCoins(coin(pick(rng, d.std, d.std, "tka"), randMag(rng, 40))))), true
+		}
+	}
 	ps := poolOf(s, denom)
 	delta := deltaOf(s.Params)
 	// early blocks: make pools
@@ -574,6 +586,11 @@ func (d *csDirector) intent(maxBits, blockNo int) (rig.Tx, bool) {
 		}
 		tag := &csTag{Kind: "donate"}
 		side := pick(rng, denom, d.std)
+		if rng.Intn(12) == 0 {
+			// coins sent to the coinswap module account itself (it collects and burns the pool-creation fee)
+			tag.Note = "to-module-account"
+			return r.Mk(a, tag, banktypes.NewMsgSend(a.Addr, authtypes.NewModuleAddress(cstypes.ModuleName), sdk.NewCoins(coin(pick(rng, d.std, denom), randMag(rng, 40))))), true
+		}
 		if rng.Intn(5) == 0 {
 			side, tag.Note = d.otherDenom(denom), "foreign-denom" // dust of a third denomination in the pool account
 		} else if have := amountOf(s.Bal[a.Addr.String()], ps.P.LptDenom); have.Sign() > 0 && rng.Intn(4) == 0 {
@@ -667,7 +684,7 @@ func (d *csDirector) observe(br *rig.BlockRecord) {
 		if tag.Kind == "swap" {
 			run.Count("swap-"+tag.Hop+"-"+okc, 1)
 		}
-		if tag.Bound == "lookalike-coin" || tag.Note == "own-lpt" {
+		if tag.Bound == "lookalike-coin" || tag.Note == "own-lpt" || tag.Note == "to-module-account" {
 			run.Count(tag.Kind+"-"+tag.Bound+tag.Note+"-"+okc, 1)
 		}
 		if tag.Bound == "foreign-denom" || tag.Note == "foreign-denom" {
